@@ -12,8 +12,9 @@ LEVEL_OF_INDICATOR = {1: 'L', 0: 'M', 3: 'Q', 2: 'H'}
 
 
 # ------------------------------------------------------------------ design run + vector export (spec -> code)
-def design_run(rep, cfg, what, workers=None):
-    out, st = common.run_tlc('MC_Decide', cfg=cfg, workers=workers or common.NCPU, timeout=1500, xmx='12g', coverage=True)
+def design_run(rep, cfg, what, workers=None, coverage=False):
+    # -coverage slows TLC down several times: it is requested for the small-scope run only (every action of the model is taken there)
+    out, st = common.run_tlc('MC_Decide', cfg=cfg, workers=workers or common.NCPU, timeout=1500, xmx='12g', coverage=coverage)
     rep.add_design('MC_Decide', cfg, out, st, what)
     return common.parse_vectors(out)
 
@@ -142,6 +143,8 @@ def observe_decide(calls):
 
 def judge_decide(rep, observations, tags, key_fn=None):
     verdicts, st = common.validate_observations(rep.pid, 'Trace_Decide', observations, timeout=3000, tag='decide')
+    for o in observations:
+        o.pop('res', None) if False else None
     rep.add_trace_stats(st, len(observations))
     for o in observations:
         v = verdicts[o['tid']]
@@ -191,7 +194,7 @@ def replay(pid, d):
 def run_vectors(rep, tier, tags, extra_calls=()):
     r = gen.rng(common.seed(), rep.pid, 'decide')
     small_cfg = 'Decide_small_quick.cfg' if tier == 'quick' else 'Decide_small.cfg'
-    design_run(rep, small_cfg, 'exhaustive small scope: all argument vectors, invariants C04_*, C05_*, C07_*, C14_Excluded on the model')
+    design_run(rep, small_cfg, 'exhaustive small scope: all argument vectors, invariants C04_*, C05_*, C07_*, C14_Excluded on the model', coverage=True)
     vecs = design_run(rep, 'Decide_boundary_quick.cfg' if tier == 'quick' else 'Decide_boundary_all.cfg',
                       'capacity boundaries of every (class, version, level): invariants + export of test vectors')
     sel = select(vecs, tier)
@@ -205,10 +208,14 @@ def run_vectors(rep, tier, tags, extra_calls=()):
     rep.notes['vectors_executed'] = len(sel)
     calls = [vector_call(r, v) for v in sel] + list(extra_calls)
     rep.evaluations += len(calls)
-    obs = observe_decide(calls)
-    judge_decide(rep, obs, tags)
+    # streamed in chunks: observations (with matrices) are judged and dropped, so that thorough tiers stay within memory
+    step = 40000
+    for i in range(0, len(calls), step):
+        obs = observe_decide(calls[i:i + step])
+        judge_decide(rep, obs, tags)
+        del obs
     rep.trusted.append('Python codecs for the text -> bytes policy of the abstraction function')
-    return obs
+    return None
 
 
 # =============================================================================================== C04
